@@ -62,6 +62,17 @@ def h_uniform():
     return lsl.GraphBuilder().add(y).build_model(), spec, ["a", "y"]
 
 
+def h_intarray():
+    """a continuous variable whose current value is an integer-typed array (e.g. initialised with np.zeros(2, dtype=int)), feeding its child through a calculation"""
+    import liesel.model as lsl
+    h = _hp(m_loc=3.0, m_scale=10.0, y_scale=0.5)
+    m = lsl.Var(jnp.array([0, 0]), lsl.Dist(tfd().Normal, loc=h["m_loc"], scale=h["m_scale"]), name="m")
+    mid = lsl.Calc(lambda v: 2.0 * v + 1.0, m, _name="mid")
+    y = lsl.Var(jnp.zeros(2), lsl.Dist(tfd().Normal, loc=mid, scale=h["y_scale"]), name="y")
+    spec = {"m": ((2,), lambda v: v["m_loc"], lambda v: v["m_scale"]), "y": ((2,), lambda v: 2 * v["m"] + 1, lambda v: v["y_scale"])}
+    return lsl.GraphBuilder().add(y).build_model(), spec, ["m", "y"]
+
+
 def h_calc():
     import liesel.model as lsl
     h = _hp(mu_loc=3.0, mu_scale=2.0, y_scale=0.5)
@@ -109,7 +120,7 @@ def h_twolevel():
     return lsl.GraphBuilder().add(c).build_model(), spec, ["a", "b", "c"]
 
 
-FAMILY = {"direct": h_direct, "uniform root": h_uniform, "user-named dist nodes": h_named, "via-calc": h_calc, "diamond": h_diamond, "per_obs=False": h_perobs, "two-level+matrix": h_twolevel}
+FAMILY = {"direct": h_direct, "uniform root": h_uniform, "int-typed current value": h_intarray, "user-named dist nodes": h_named, "via-calc": h_calc, "diamond": h_diamond, "per_obs=False": h_perobs, "two-level+matrix": h_twolevel}
 
 
 def scenario(chk, hname, auto, skip):
@@ -150,7 +161,7 @@ def scenario(chk, hname, auto, skip):
     pref = "".join(ch for ch in tag if ch.isalnum())
     sst = symlike(st0, pref)
     for k in list(sst):            # literal hyper-parameters (auto-named nodes) stay concrete
-        if k[0] == "n" and k[1:].isdigit():
+        if (k[0] == "n" and k[1:].isdigit()) or np.asarray(st0[k]).dtype.kind in "iub":
             sst[k] = np.asarray(st0[k])
     # input state must itself be coherent for "skipped variables untouched / ancestors new" to be meaningful:
     # only the values of strong nodes are free, derived nodes are whatever they are (arbitrary)
@@ -188,7 +199,9 @@ def obligations(enc, spec, order, sst, tag, skip):
                 if d["kind"] != kind or int(np.prod(d["shape"], dtype=int)) != n:
                     continue
                 z = cells(d["out"])
-                alts.append(z3.And(*[c == loc(nv) + scale(nv) * zz for c, zz in zip(cells(got), z)]))
+                Ls = list(np.broadcast_to(np.asarray(loc(nv), dtype=object), shape).reshape(-1)) if shape else [loc(nv)]
+                Ss = list(np.broadcast_to(np.asarray(scale(nv), dtype=object), shape).reshape(-1)) if shape else [scale(nv)]
+                alts.append(z3.And(*[c == l_ + s_ * zz for c, zz, l_, s_ in zip(cells(got), z, Ls, Ss)]))
             return [], z3.Or(*alts) if alts else z3.BoolVal(False)
         obs.append(Obligation(f"simulate[{tag}]: {var} = loc(new ancestors) + scale(new ancestors) * z with z a standard normal (or, for a uniform prior, standard uniform) draw of its own key",
                               [enc], g_draw, signature=f"{tag}:draw:{var}"))
@@ -223,7 +236,7 @@ def main():
     if chk.tier == "quick":
         plan = [("direct", True, ()), ("via-calc", False, ()), ("via-calc", True, ()), ("diamond", False, ()), ("diamond", True, ("m",)),
                 ("per_obs=False", False, ()), ("two-level+matrix", False, ("a",)), ("direct", False, ("mu_log_prob",)), ("via-calc", False, ("y_var_value",)),
-                ("user-named dist nodes", True, ("mu_prior",)), ("user-named dist nodes", False, ("lik",)), ("uniform root", False, ()), ("uniform root", True, ("y",))]
+                ("user-named dist nodes", True, ("mu_prior",)), ("user-named dist nodes", False, ("lik",)), ("uniform root", False, ()), ("uniform root", True, ("y",)), ("int-typed current value", False, ())]
     else:
         plan = []
         for h in FAMILY:
